@@ -295,7 +295,7 @@ impl Monitor for C03 {
             + match t {
                 Tier::Tiny => 24,
                 Tier::Quick => 384000,
-                Tier::Thorough => 3840000,
+                Tier::Thorough => 768000,
             }
     }
     fn rule(&self) -> &'static str {
